@@ -132,9 +132,11 @@ def gen_lens_cfg(rng, ltype, sharp=True, with_scaling=None, with_los=None, prior
     kwargs_lens = dict(lambda_mst=rng.uniform(0.8, 1.2), gamma_ppn=rng.choice([1.0, rng.uniform(0.7, 1.3)]))
     if rng.random() < 0.6:
         kwargs_lens["lambda_ifu"] = rng.uniform(0.8, 1.2)
-    if cfg["alpha_lambda_sampling"]:
+    # (the slopes of lambda with the lens properties are hyper-parameters like any other: a user may hand them over — held
+    # fixed — without switching on their sampling; the switches belong to the sampler's bookkeeping)
+    if cfg["alpha_lambda_sampling"] or rng.random() < 0.5:
         kwargs_lens["alpha_lambda"] = rng.uniform(-0.2, 0.2)
-    if cfg["beta_lambda_sampling"]:
+    if cfg["beta_lambda_sampling"] or rng.random() < 0.5:
         kwargs_lens["beta_lambda"] = rng.uniform(-0.2, 0.2)
     kwargs_lens["lambda_mst_sigma"] = 0.0 if sharp else rng.choice([0.0, rng.uniform(0.01, 0.08)])
     if "lambda_ifu" in kwargs_lens:
